@@ -1,5 +1,6 @@
 import Slu.Proto
 import Slu.Model.Equil
+-- HANDLER equil => Slu.Drv.Equil.handle
 /-
 Driver for family `equil` (C11).  Corr: bit-exact comparison of every output of gsequ/laqgs with the
 model run at the case's arithmetic type.  Prop: the property's clauses evaluated in exact rational
